@@ -27,6 +27,7 @@ type Config struct {
 }
 
 type Exec struct {
+	TemporalHits map[*Temporal]int
 	Prog    *ssa.Program
 	G       *Gen
 	Specs   *SpecDB
